@@ -27,7 +27,7 @@ type Case struct {
 }
 
 func gen(t *rapid.T) Case {
-	p := jgen.GenProject(t, jgen.Opts{Layout: true, Interfaces: true, MaxUnits: 8, MultiByte: true, Bodies: rapid.IntRange(0, 3).Draw(t, "bodies") == 0})
+	p := jgen.GenProject(t, jgen.Opts{Layout: true, Interfaces: true, RichDecl: true, MaxUnits: 8, MultiByte: true, Bodies: rapid.IntRange(0, 3).Draw(t, "bodies") == 0})
 	return Case{Project: p, CLI: rapid.IntRange(0, 11).Draw(t, "cli") == 0}
 }
 
